@@ -46,10 +46,12 @@
 package coregex
 
 import (
+	"bytes"
 	"io"
 	"iter"
 	"regexp/syntax"
 	"strings"
+	"unicode"
 	"unicode/utf8"
 	"unsafe"
 
@@ -968,48 +970,91 @@ func (r *Regex) ExpandString(dst []byte, template string, src string, match []in
 // append, it replaces $1, $2, etc. with the corresponding submatch.
 // $0 is the entire match.
 func (r *Regex) expand(dst []byte, template []byte, src []byte, match []int) []byte {
-	i := 0
-	for i < len(template) {
-		if template[i] != '$' || i+1 >= len(template) {
-			dst = append(dst, template[i])
-			i++
+	var names []string // looked up on the first $name reference only
+	for len(template) > 0 {
+		k := bytes.IndexByte(template, '$')
+		if k < 0 {
+			break
+		}
+		dst = append(dst, template[:k]...)
+		template = template[k+1:]
+		if len(template) > 0 && template[0] == '$' {
+			dst = append(dst, '$')
+			template = template[1:]
 			continue
 		}
-
-		// Handle $ escape sequences
-		next := template[i+1]
-
-		// Check for $0-$9
-		if next >= '0' && next <= '9' {
-			groupNum := int(next - '0')
-			// Each group occupies 2 indices in match array
-			groupIdx := groupNum * 2
-			if groupIdx+1 < len(match) && match[groupIdx] >= 0 {
-				dst = append(dst, src[match[groupIdx]:match[groupIdx+1]]...)
+		name, num, rest, ok := extractTemplateName(template)
+		if !ok {
+			// Malformed; treat $ as raw text.
+			dst = append(dst, '$')
+			continue
+		}
+		template = rest
+		if num >= 0 {
+			if 2*num+1 < len(match) && match[2*num] >= 0 {
+				dst = append(dst, src[match[2*num]:match[2*num+1]]...)
 			}
-			i += 2
 			continue
 		}
-
-		// Check for ${name} - not supported yet, treat as literal
-		if next == '{' {
-			dst = append(dst, '$')
-			i++
-			continue
+		if names == nil {
+			names = r.SubexpNames()
 		}
-
-		// $$ -> $
-		if next == '$' {
-			dst = append(dst, '$')
-			i += 2
-			continue
+		for i, namei := range names {
+			if string(name) == namei && 2*i+1 < len(match) && match[2*i] >= 0 {
+				dst = append(dst, src[match[2*i]:match[2*i+1]]...)
+				break
+			}
 		}
+	}
+	return append(dst, template...)
+}
 
-		// Unknown $ escape, treat as literal
-		dst = append(dst, '$')
+// extractTemplateName returns the name from a leading "name" or "{name}" in t
+// (the text after a '$'). If it is a number, num is its value, otherwise -1.
+// This mirrors the template syntax of stdlib regexp: a name is the longest
+// sequence of letters, digits and underscores.
+func extractTemplateName(t []byte) (name []byte, num int, rest []byte, ok bool) {
+	if len(t) == 0 {
+		return nil, 0, nil, false
+	}
+	brace := false
+	if t[0] == '{' {
+		brace = true
+		t = t[1:]
+	}
+	i := 0
+	for i < len(t) {
+		rn, size := utf8.DecodeRune(t[i:])
+		if !unicode.IsLetter(rn) && !unicode.IsDigit(rn) && rn != '_' {
+			break
+		}
+		i += size
+	}
+	if i == 0 {
+		// empty name is not okay
+		return nil, 0, nil, false
+	}
+	name = t[:i]
+	if brace {
+		if i >= len(t) || t[i] != '}' {
+			// missing closing brace
+			return nil, 0, nil, false
+		}
 		i++
 	}
-	return dst
+	num = 0
+	for _, c := range name {
+		if c < '0' || '9' < c || num >= 1e8 {
+			num = -1
+			break
+		}
+		num = num*10 + int(c) - '0'
+	}
+	// Disallow leading zeros.
+	if name[0] == '0' && len(name) > 1 {
+		num = -1
+	}
+	return name, num, t[i:], true
 }
 
 // ReplaceAll returns a copy of src, replacing matches of the pattern
